@@ -62,6 +62,9 @@ def debounceKind : Kind where
       let m' := dstep st.wait st.m e
       { st := { st with mon := st.mon.push e, m := m' },
         tags := if m'.fired.length > st.m.fired.length then ["debounce:fire"] else ["debounce:sleep"] }
+    -- from here on the debounced function itself takes time: nothing in the debouncer's state depends on it
+    -- (the function runs outside the debouncer's lock, after the go-ahead), so model and monitor are unchanged
+    | "slow", [.int _], [.int _] => { st := st, model := some [.int st.m.now], tags := ["debounce:slow-function"] }
     | "call", [], [.int _] =>
       let m' := dstep st.wait st.m .call
       let sup := st.m.pending.isSome
